@@ -70,7 +70,8 @@ type sessOpts struct {
 	GoIsClient  bool
 	Threshold   uint64 // Config.RekeyThreshold of the Go side (0 = default)
 	Seed        uint64
-	CapGoToPeer int // bytes in flight Go -> peer (0 = unbounded); peer -> Go is always unbounded
+	CapGoToPeer int  // bytes in flight Go -> peer (0 = unbounded); peer -> Go is always unbounded
+	Hold        bool // the Go end of the link gets a "deliver, then park" control (session.hold)
 	Prog        *mx.Progress
 	OnIn        func(seq uint32, p []byte) // every payload the peer decrypted, in wire order (reader goroutine)
 	OnOut       func(seq uint32, p []byte) // every payload the peer sent
@@ -83,6 +84,7 @@ type session struct {
 	Peer  *refpeer.Conn
 	goEnd net.Conn
 	prEnd net.Conn
+	hold  *mx.Hold
 	opts  sessOpts
 }
 
@@ -90,7 +92,11 @@ type session struct {
 // between the Go side (NewClientConn / NewServerConn) and refpeer.
 func newSession(o sessOpts) (*session, error) {
 	goEnd, prEnd := mx.NewPipe(o.Prog, o.CapGoToPeer, 0)
-	s := &session{goEnd: goEnd, prEnd: prEnd, opts: o}
+	var hold *mx.Hold
+	if o.Hold {
+		goEnd, prEnd, hold = mx.NewPipeHold(o.Prog, o.CapGoToPeer, 0)
+	}
+	s := &session{goEnd: goEnd, prEnd: prEnd, opts: o, hold: hold}
 	pcfg := refpeer.Config{
 		Rand: newDRBG(o.Seed, "peer"),
 		OnPacketIn: func(seq uint32, p []byte) {
